@@ -296,7 +296,7 @@ def load_known():
     return json.load(open(p))["findings"]
 
 
-def match_known(known, pid, suite, req, io=None, mod=None):
+def match_known(known, pid, suite, req, io=None, mod=None, mo=None):
     for k in known:
         if k.get("status") != "known":
             continue
@@ -308,8 +308,13 @@ def match_known(known, pid, suite, req, io=None, mod=None):
             return k
         if "request_re" in k and re.fullmatch(k["request_re"], req):
             return k
-        if "predicate" in k and mod is not None and getattr(mod, k["predicate"])(req, io):
-            return k
+        if "predicate" in k and mod is not None:
+            fn = getattr(mod, k["predicate"])
+            # a predicate may also look at the model's answer (three parameters): a defect the model reproduces
+            # faithfully is recognised by "the implementation still answers as the model does"
+            hit = fn(req, io, mo) if fn.__code__.co_argcount >= 3 else fn(req, io)
+            if hit:
+                return k
     return None
 
 
@@ -421,7 +426,7 @@ def run_check(pid, tier, seed):
                 if bad is None and not same:
                     bad = ("mismatch", "model and implementation differ")
                 if bad:
-                    k = match_known(known, pid, su.name, req, io, mod)
+                    k = match_known(known, pid, su.name, req, io, mod, mo)
                     if k:
                         known_lines.append((k, req))
                         continue
